@@ -184,26 +184,34 @@ def judge_stats(entry, spelling, kind):
     s2 = enc_ok[-1] if enc_ok else ''
     text = nl.join(['--- a', '+++ b', '@@ -1,2 +1,2 @@',
                     ' ctx' + s1 + 'tail', '-old' + s2 + 'x', '+new']) + nl
-    diffx = ns.DiffX()
-    f = diffx.add_change().add_file(meta={'path': 'p'})
-    f.diff = text.encode(canon)
-    f.diff_encoding = spelling
+    variants = [('as encoded', text.encode(canon))]
+    bom = ''.encode(canon)
 
-    if kind == 'dos':
-        f.diff_line_endings = 'dos'
+    if bom:
+        # a codec that writes a BOM reads data without one just as well
+        variants.append(('without its BOM', text.encode(canon)[len(bom):]))
 
-    try:
-        diffx.generate_stats()
-    except Exception as e:
-        return 'generate_stats-raised:%s' % type(e).__name__, repr(e)
+    for label, data in variants:
+        diffx = ns.DiffX()
+        f = diffx.add_change().add_file(meta={'path': 'p'})
+        f.diff = data
+        f.diff_encoding = spelling
 
-    got = f.meta.get('stats')
-    want = {'insertions': 1, 'deletions': 1, 'lines changed': 2}
+        if kind == 'dos':
+            f.diff_line_endings = 'dos'
 
-    if got != want:
-        return ('stats-depend-on-codec-or-spelling',
-                'diff_encoding=%r (%s, %s): stats %r, expected %r'
-                % (spelling, canon, kind, got, want))
+        try:
+            diffx.generate_stats()
+        except Exception as e:
+            return 'generate_stats-raised:%s' % type(e).__name__, repr(e)
+
+        got = f.meta.get('stats')
+        want = {'insertions': 1, 'deletions': 1, 'lines changed': 2}
+
+        if got != want:
+            return ('stats-depend-on-codec-or-spelling',
+                    'diff_encoding=%r (%s, %s, content %s): stats %r, '
+                    'expected %r' % (spelling, canon, kind, label, got, want))
 
     return None
 
